@@ -22,6 +22,8 @@
 //!          handler has not been given a publish, nothing once the reader has finished
 //!     8    the handler completes Ok (remembered if the handler has not started yet)
 //!     9    the peer writes a PINGREQ; only when the peer has written the whole payload, else nothing
+//!     10   the application abandons the payload: the reader task (or the slot the handler left it in) is dropped
+//!          with the `Payload`; status and bytes read as 0 from then on
 //! observation: one field per operation (after settle)
 //!     status, bytes, stops, open, first byte of every packet the peer received during the operation..
 //!   status  0 the reader has not been polled yet, 1 polled and not finished, 2 finished Ok (read() answered
@@ -316,7 +318,17 @@ pub async fn run_case(c: &Fields, v5: bool) -> Fields {
             }
             [5] => sink.close(),
             [6] => sink.force_close(),
-            [7] if status < 2 => {
+            // the application abandons the payload: whatever holds it (the handler's slot, the reader task with its
+            // pending future) is dropped
+            [10] if status < 2 => {
+                let in_slot = sh.payload.borrow_mut().take().is_some();
+                if in_slot || !matches!(reader, Reader::NoPayload | Reader::Gone) {
+                    reader = Reader::Gone;
+                    status = 0;
+                    held = 0;
+                }
+            }
+            [7] if status < 2 && !matches!(reader, Reader::Gone) => {
                 if matches!(reader, Reader::NoPayload)
                     && let Some(pl) = sh.payload.borrow_mut().take()
                 {
